@@ -44,6 +44,7 @@ fn main() {
         "rt-vectors" => rt::vectors(&a),
         "rt-random" => rt::random(&a),
         "mux" => mux::run(&a),
+        "mux-replay" => mux::replay(&a),
         "srv-c03" => srv::c03(&a),
         "ws-c16" => wsx::c16(&a),
         "ws-c17" => wsx::c17(&a),
